@@ -523,7 +523,7 @@ class SQLParser:
         inner_scanner = scanner.pop_as_children_scanner()
         function_params: List[GeneralExpression] = []
         if not inner_scanner.is_finish:
-            cls._parse_logical_or_level_expression(inner_scanner, sql_type=sql_type)
+            function_params.append(cls._parse_logical_or_level_expression(inner_scanner, sql_type=sql_type))
         while inner_scanner.search_and_move_one_type_str(","):
             function_params.append(cls._parse_logical_or_level_expression(inner_scanner, sql_type=sql_type))
         inner_scanner.close()
